@@ -1,13 +1,706 @@
-// Package c18 is the correspondence harness for property C18 (placeholder).
+// Package c18 is the correspondence harness for property C18: pre-installed plugins are
+// discovered, launched, configured, ordered, skipped and reaped as documented. Each case is
+// a generated plugin directory + drop-in directory under o.Scratch on which a real
+// adaptation.Adaptation is started; the plugins are copies (hard links / symlinks) of the
+// two-stage probe program in ./probe (syscall-only: reports inherited descriptors, environment,
+// argv) and ./probe2 (stub-based plugin: records Configure and requests), built at run time,
+// which misbehaves as its file name says.
 package c18
 
 import (
-	"errors"
+	"bufio"
+	"context"
+	"encoding/json"
+	"fmt"
+	"net"
+	"os"
+	"os/exec"
+	"path/filepath"
+	"sort"
+	"strconv"
+	"strings"
+	"sync"
+	"syscall"
+	"time"
+
+	"github.com/containerd/nri/pkg/adaptation"
+	"github.com/containerd/nri/pkg/api"
 
 	"verifh/internal/hx"
 	"verifh/internal/lineio"
 )
 
+// ---------------------------------------------------------------- line protocol
+
+type entryIn struct {
+	Name    string `json:"name"`
+	Kind    string `json:"kind"`    // file | dir | symlink
+	Mode    uint32 `json:"mode"`    // permission bits (file, dir)
+	Content string `json:"content"` // file: probe | text | script | wasm
+	Target  string `json:"target"`  // symlink: probe (executable probe) | noexec (probe, mode 0644) | dir | missing | text
+	Behave  string `json:"behave"`  // what a probe started under this name does: ok|exit|hang|cfgfail|syncfail|die
+}
+
+type dropinIn struct {
+	Name    string `json:"name"`
+	Kind    string `json:"kind"` // file | dir
+	Content string `json:"content"`
+}
+
+type dirIn struct {
+	Kind       string     `json:"kind"` // "dir"
+	Stream     string     `json:"stream"`
+	Entries    []entryIn  `json:"entries"`
+	Dropins    []dropinIn `json:"dropins"`
+	NoDir      bool       `json:"nodir"`      // the plugin directory does not exist
+	NoDropins  bool       `json:"nodropins"`  // the drop-in directory does not exist
+	Root       bool       `json:"root"`       // the harness runs as root (any x bit suffices to exec)
+	RegTimeout int        `json:"regtimeout"` // ms, the registration timeout in force
+}
+
+type probeObs struct {
+	File       string   `json:"file"`
+	Argv       []string `json:"argv"` // base names
+	Env        []string `json:"env"`  // sorted
+	FDs        []string `json:"fds"`  // "n:kind", kind ∈ null socket pipe file other
+	Configured bool     `json:"configured"`
+	Config     string   `json:"config"`
+	Runtime    string   `json:"runtime"` // name/version seen in Configure
+	After      string   `json:"after"`   // gone | zombie | alive  (process table after Stop)
+}
+
+type logLine struct {
+	Who string `json:"who"`
+	Ev  string `json:"ev"`
+	Arg string `json:"arg"`
+}
+
+type dirObs struct {
+	Start  string     `json:"start"` // ok | invalid-name | config | other:<text>
+	Log    []logLine  `json:"log"`   // start / configure / synchronize / create lines in file order
+	Noise  []string   `json:"noise"` // other events logged by probes (stub-error, run-error, …)
+	Probes []probeObs `json:"probes"`
+	Stray  int        `json:"stray"` // live processes running a file of this case's plugin dir after Stop
+	R1     string     `json:"r1"`    // "" or error text class of the first / second request
+	R2     string     `json:"r2"`
+	WallMs int64      `json:"wall_ms"`
+}
+
+func behaveOf(name string) string {
+	base := name
+	if len(base) >= 3 && base[2] == '-' {
+		base = base[3:]
+	}
+	for _, m := range []string{"ok", "exit", "hang", "cfgfail", "syncfail", "die"} {
+		if strings.HasPrefix(base, m) {
+			return m
+		}
+	}
+	return "ok"
+}
+
+// ---------------------------------------------------------------- probe binary
+
+// masters holds one copy of each executable content (probe, script) per permission-bit
+// pattern; plugin directory entries are hard links to them. All copies are made BEFORE the
+// first runtime is started: a file that is still open for writing anywhere — including, for
+// an instant, in a child forked by a concurrent os/exec — cannot be executed (ETXTBSY), and
+// that must not be mistaken for NRI failing to launch a plugin.
+type masters struct {
+	dir string
+	mu  sync.Mutex
+	src string            // the built probe
+	by  map[string]string // content:mode -> path
+}
+
+func harnessDir() (string, error) {
+	if d := os.Getenv("VERIF_DIR"); d != "" {
+		return filepath.Join(d, "harness"), nil
+	}
+	wd, _ := os.Getwd()
+	for _, c := range []string{filepath.Join(wd, "harness"), wd, filepath.Join(wd, "..", "harness")} {
+		if _, err := os.Stat(filepath.Join(c, "c18", "probe", "main.go")); err == nil {
+			return c, nil
+		}
+	}
+	return "", fmt.Errorf("cannot find the harness sources (set VERIF_DIR)")
+}
+
+func buildProbe(out, pkg string) error {
+	hd, err := harnessDir()
+	if err != nil {
+		return err
+	}
+	args := []string{"build", "-tags", "verif", "-ldflags", "-s -w"}
+	// a private module file next to the output (the harness's go.mod with the nri replacement
+	// pointing at the repository under test), so that concurrent checks cannot interfere
+	repo := os.Getenv("VERIF_REPO")
+	if repo == "" {
+		repo = "/repo"
+	}
+	if rp, err := filepath.EvalSymlinks(repo); err == nil {
+		repo = rp
+	}
+	mod, err := os.ReadFile(filepath.Join(hd, "go.mod"))
+	if err != nil {
+		return err
+	}
+	mf := out + ".mod"
+	if err := os.WriteFile(mf, []byte(strings.ReplaceAll(string(mod), "=> /repo", "=> "+repo)), 0o644); err != nil {
+		return err
+	}
+	if sum, err := os.ReadFile(filepath.Join(repo, "go.sum")); err == nil {
+		if err := os.WriteFile(out+".sum", sum, 0o644); err != nil {
+			return err
+		}
+	}
+	args = append(args, "-modfile", mf)
+	args = append(args, "-o", out, pkg)
+	ctx, cancel := context.WithTimeout(context.Background(), 10*time.Minute)
+	defer cancel()
+	cmd := exec.CommandContext(ctx, "go", args...)
+	cmd.Dir = hd
+	cmd.Env = append(os.Environ(), "GOFLAGS=-mod=mod", "GOPROXY=off", "GOSUMDB=off", "GOTOOLCHAIN=local", "CGO_ENABLED=0")
+	if b, err := cmd.CombinedOutput(); err != nil {
+		return fmt.Errorf("go build probe: %v\n%s", err, b)
+	}
+	return nil
+}
+
+func copyFile(src, dst string, mode os.FileMode) error {
+	b, err := os.ReadFile(src)
+	if err != nil {
+		return err
+	}
+	if err := os.WriteFile(dst, b, 0o600); err != nil {
+		return err
+	}
+	return os.Chmod(dst, mode)
+}
+
+// master returns the copy of `content` with exactly the given permission bits; it must have
+// been prepared (see prepare) before any runtime was started.
+func (m *masters) master(content string, mode uint32) (string, error) {
+	m.mu.Lock()
+	defer m.mu.Unlock()
+	k := fmt.Sprintf("%s-%04o", content, mode)
+	if p, ok := m.by[k]; ok {
+		return p, nil
+	}
+	return "", fmt.Errorf("no master copy %s prepared", k)
+}
+
+func (m *masters) prepare(inputs []*dirIn) error {
+	need := map[string]bool{"probe-0755": true, "probe-0644": true}
+	for _, in := range inputs {
+		for _, e := range in.Entries {
+			if e.Kind == "file" && (e.Content == "probe" || e.Content == "script") {
+				need[fmt.Sprintf("%s-%04o", e.Content, e.Mode)] = true
+			}
+		}
+	}
+	for k := range need {
+		var content string
+		var mode uint32
+		i := strings.LastIndex(k, "-")
+		content = k[:i]
+		md, _ := strconv.ParseUint(k[i+1:], 8, 32)
+		mode = uint32(md)
+		p := filepath.Join(m.dir, k)
+		if content == "probe" {
+			if err := copyFile(m.src, p, os.FileMode(mode)); err != nil {
+				return err
+			}
+		} else {
+			if err := os.WriteFile(p, []byte("#!/bin/sh\nexit 0\n"), 0o600); err != nil {
+				return err
+			}
+			if err := os.Chmod(p, os.FileMode(mode)); err != nil {
+				return err
+			}
+		}
+		m.by[k] = p
+	}
+	return nil
+}
+
+// ---------------------------------------------------------------- one case
+
+var wasmHeader = []byte{0x00, 0x61, 0x73, 0x6d, 0x01, 0x00, 0x00, 0x00}
+
+func populate(in *dirIn, base string, ms *masters) error {
+	pdir, cdir, rdir := filepath.Join(base, "plugins"), filepath.Join(base, "conf.d"), filepath.Join(base, "reports")
+	if err := os.MkdirAll(rdir, 0o755); err != nil {
+		return err
+	}
+	if !in.NoDir {
+		if err := os.MkdirAll(pdir, 0o755); err != nil {
+			return err
+		}
+		for _, e := range in.Entries {
+			p := filepath.Join(pdir, e.Name)
+			switch e.Kind {
+			case "dir":
+				if err := os.Mkdir(p, 0o700); err != nil {
+					return err
+				}
+				if err := os.Chmod(p, os.FileMode(e.Mode)); err != nil {
+					return err
+				}
+			case "symlink":
+				var target string
+				switch e.Target {
+				case "probe":
+					t, err := ms.master("probe", 0o755)
+					if err != nil {
+						return err
+					}
+					target = t
+				case "noexec":
+					t, err := ms.master("probe", 0o644)
+					if err != nil {
+						return err
+					}
+					target = t
+				case "dir":
+					target = rdir
+				case "text":
+					target = filepath.Join(base, "notes.txt")
+					if err := os.WriteFile(target, []byte("not a program\n"), 0o644); err != nil {
+						return err
+					}
+				default:
+					target = filepath.Join(base, "does-not-exist")
+				}
+				if err := os.Symlink(target, p); err != nil {
+					return err
+				}
+			default:
+				switch e.Content {
+				case "probe", "script":
+					t, err := ms.master(e.Content, e.Mode)
+					if err != nil {
+						return err
+					}
+					if err := os.Link(t, p); err != nil {
+						return err
+					}
+				case "wasm":
+					if err := os.WriteFile(p, wasmHeader, 0o600); err != nil {
+						return err
+					}
+				default:
+					if err := os.WriteFile(p, []byte("just text, no interpreter line\n"), 0o600); err != nil {
+						return err
+					}
+				}
+				if e.Content != "probe" && e.Content != "script" {
+					if err := os.Chmod(p, os.FileMode(e.Mode)); err != nil {
+						return err
+					}
+				}
+			}
+		}
+	}
+	if !in.NoDropins {
+		if err := os.MkdirAll(cdir, 0o755); err != nil {
+			return err
+		}
+		for _, d := range in.Dropins {
+			p := filepath.Join(cdir, d.Name)
+			if d.Kind == "dir" {
+				if err := os.Mkdir(p, 0o755); err != nil {
+					return err
+				}
+			} else if err := os.WriteFile(p, []byte(d.Content), 0o644); err != nil {
+				return err
+			}
+		}
+	}
+	return nil
+}
+
+func fdKind(link string) string {
+	switch {
+	case link == "/dev/null":
+		return "null"
+	case strings.HasPrefix(link, "socket:"):
+		return "socket"
+	case strings.HasPrefix(link, "pipe:"):
+		return "pipe"
+	case strings.HasPrefix(link, "anon_inode:"):
+		return "anon"
+	case strings.HasPrefix(link, "/"):
+		return "file"
+	}
+	return "other"
+}
+
+func procState(pid int) string {
+	b, err := os.ReadFile("/proc/" + strconv.Itoa(pid) + "/stat")
+	if err != nil {
+		return "gone"
+	}
+	s := string(b)
+	i := strings.LastIndex(s, ")")
+	if i < 0 || i+2 >= len(s) {
+		return "gone"
+	}
+	f := strings.Fields(s[i+2:])
+	if len(f) < 2 {
+		return "gone"
+	}
+	if ppid, _ := strconv.Atoi(f[1]); ppid != os.Getpid() {
+		return "gone" // the pid was reused by somebody else's process
+	}
+	if f[0] == "Z" {
+		return "zombie"
+	}
+	return "alive"
+}
+
+// live processes whose executable or argv[0] lies in dir
+func strays(dir string, known map[int]bool) int {
+	n := 0
+	ents, _ := os.ReadDir("/proc")
+	for _, e := range ents {
+		pid, err := strconv.Atoi(e.Name())
+		if err != nil || known[pid] {
+			continue
+		}
+		b, err := os.ReadFile("/proc/" + e.Name() + "/cmdline")
+		if err != nil || len(b) == 0 {
+			continue
+		}
+		if strings.HasPrefix(string(b), dir+"/") {
+			n++
+		}
+	}
+	return n
+}
+
+func errClass(err error) string {
+	if err == nil {
+		return ""
+	}
+	s := err.Error()
+	switch {
+	case strings.Contains(s, "invalid plugin name"), strings.Contains(s, "invalid plugin index"):
+		return "invalid-name"
+	case strings.Contains(s, "failed to read configuration"):
+		return "config"
+	}
+	if len(s) > 120 {
+		s = s[:120]
+	}
+	return "other:" + s
+}
+
+var startMu sync.Mutex // adaptation.New spins up a wazero runtime; keep construction serial
+
+func runCase(in *dirIn, base string, ms *masters) (dirObs, error) {
+	o := dirObs{Log: []logLine{}, Noise: []string{}, Probes: []probeObs{}}
+	if err := populate(in, base, ms); err != nil {
+		return o, err
+	}
+	pdir, cdir, rdir := filepath.Join(base, "plugins"), filepath.Join(base, "conf.d"), filepath.Join(base, "reports")
+	t0 := time.Now()
+	syncFn := func(ctx context.Context, cb adaptation.SyncCB) error {
+		_, err := cb(ctx, []*api.PodSandbox{{Id: "p0", Name: "p0"}}, []*api.Container{{Id: "c0", PodSandboxId: "p0", Name: "c0"}})
+		return err
+	}
+	updateFn := func(context.Context, []*api.ContainerUpdate) ([]*api.ContainerUpdate, error) { return nil, nil }
+	startMu.Lock()
+	r, err := adaptation.New("verif-runtime", "v18", syncFn, updateFn,
+		adaptation.WithPluginPath(pdir), adaptation.WithPluginConfigPath(cdir), adaptation.WithDisabledExternalConnections())
+	startMu.Unlock()
+	if err != nil {
+		return o, err
+	}
+	serr := r.Start()
+	o.Start = "ok"
+	if serr != nil {
+		o.Start = errClass(serr)
+	}
+	req := func(id string) string {
+		ctx, cancel := context.WithTimeout(context.Background(), 60*time.Second)
+		defer cancel()
+		_, err := r.CreateContainer(ctx, &api.CreateContainerRequest{
+			Pod:       &api.PodSandbox{Id: "p0", Name: "p0"},
+			Container: &api.Container{Id: id, PodSandboxId: "p0", Name: id},
+		})
+		if err != nil {
+			return "error"
+		}
+		return ""
+	}
+	readStarts := func() map[string]*startRep {
+		m := map[string]*startRep{}
+		ents, _ := os.ReadDir(rdir)
+		for _, e := range ents {
+			if !strings.HasSuffix(e.Name(), ".start") || strings.HasPrefix(e.Name(), ".") {
+				continue
+			}
+			b, err := os.ReadFile(filepath.Join(rdir, e.Name()))
+			if err != nil {
+				continue
+			}
+			sr := &startRep{}
+			if json.Unmarshal(b, sr) == nil {
+				m[sr.File] = sr
+			}
+		}
+		return m
+	}
+	if serr == nil {
+		o.R1 = req("r1")
+		// let the probes that die after their first request finish dying
+		deadline := time.Now().Add(5 * time.Second)
+		for time.Now().Before(deadline) {
+			pending := false
+			for f, sr := range readStarts() {
+				if behaveOf(f) == "die" && procState(sr.Pid) == "alive" {
+					pending = true
+				}
+			}
+			if !pending {
+				break
+			}
+			time.Sleep(5 * time.Millisecond)
+		}
+		time.Sleep(20 * time.Millisecond) // the runtime's close notification for the dead connection
+		o.R2 = req("r2")
+	}
+	r.Stop()
+	starts := readStarts()
+	// process table: dropped plugins are killed and reaped by a goroutine of the runtime; give it
+	// time (up to 5 s while anything is still running, 1.5 s for exited-but-unreaped children)
+	known := map[int]bool{}
+	t1 := time.Now()
+	for {
+		alive, zombie := false, false
+		for _, sr := range starts {
+			known[sr.Pid] = true
+			switch procState(sr.Pid) {
+			case "alive":
+				alive = true
+			case "zombie":
+				zombie = true
+			}
+		}
+		el := time.Since(t1)
+		if (!alive && !zombie) || (!alive && el > 1500*time.Millisecond) || el > 5*time.Second {
+			break
+		}
+		time.Sleep(10 * time.Millisecond)
+	}
+	o.Stray = strays(pdir, known)
+	for _, sr := range starts {
+		p := probeObs{File: sr.File, Env: sr.Env, Argv: []string{}, FDs: []string{}, After: procState(sr.Pid)}
+		if p.Env == nil {
+			p.Env = []string{}
+		}
+		sort.Strings(p.Env)
+		for _, a := range sr.Argv {
+			p.Argv = append(p.Argv, filepath.Base(a))
+		}
+		for _, fd := range sr.FDs {
+			p.FDs = append(p.FDs, fmt.Sprintf("%d:%s", fd.FD, fdKind(fd.Link)))
+		}
+		if b, err := os.ReadFile(filepath.Join(rdir, sr.File+".configure")); err == nil {
+			var c struct {
+				Config         string `json:"config"`
+				RuntimeName    string `json:"runtime_name"`
+				RuntimeVersion string `json:"runtime_version"`
+			}
+			if json.Unmarshal(b, &c) == nil {
+				p.Configured, p.Config, p.Runtime = true, c.Config, c.RuntimeName+"/"+c.RuntimeVersion
+			}
+		}
+		o.Probes = append(o.Probes, p)
+	}
+	sort.Slice(o.Probes, func(i, j int) bool { return o.Probes[i].File < o.Probes[j].File })
+	if f, err := os.Open(filepath.Join(rdir, "log")); err == nil {
+		sc := bufio.NewScanner(f)
+		for sc.Scan() {
+			var l logLine
+			if json.Unmarshal(sc.Bytes(), &l) != nil {
+				continue
+			}
+			switch l.Ev {
+			case "start", "configure", "synchronize", "create":
+				o.Log = append(o.Log, l)
+			default:
+				o.Noise = append(o.Noise, l.Who+":"+l.Ev)
+			}
+		}
+		f.Close()
+	}
+	sort.Strings(o.Noise)
+	o.WallMs = time.Since(t0).Milliseconds()
+	return o, nil
+}
+
+type startRep struct {
+	File string   `json:"file"`
+	Argv []string `json:"argv"`
+	Env  []string `json:"env"`
+	FDs  []struct {
+		FD   int    `json:"fd"`
+		Link string `json:"link"`
+	} `json:"fds"`
+	Pid int `json:"pid"`
+}
+
+// ---------------------------------------------------------------- descriptors the "runtime" holds
+
+// holdDescriptors opens files, sockets and a pipe in this process (the runtime of every
+// case) and keeps them open for the whole run, so that a launched plugin inheriting any of
+// them would show it in its descriptor list.
+func holdDescriptors(dir string) (func(), int) {
+	var closers []func()
+	n := 0
+	for i := 0; i < 4; i++ {
+		if f, err := os.Create(filepath.Join(dir, fmt.Sprintf("held-%d", i))); err == nil {
+			closers = append(closers, func() { f.Close() })
+			n++
+		}
+	}
+	if l, err := net.Listen("unix", filepath.Join(dir, "held.sock")); err == nil {
+		closers = append(closers, func() { l.Close() })
+		n++
+		if c, err := net.Dial("unix", filepath.Join(dir, "held.sock")); err == nil {
+			closers = append(closers, func() { c.Close() })
+			n++
+		}
+	}
+	if l, err := net.Listen("tcp", "127.0.0.1:0"); err == nil {
+		closers = append(closers, func() { l.Close() })
+		n++
+	}
+	if r, w, err := os.Pipe(); err == nil {
+		closers = append(closers, func() { r.Close(); w.Close() })
+		n += 2
+	}
+	if fds, err := syscall.Socketpair(syscall.AF_UNIX, syscall.SOCK_STREAM|syscall.SOCK_CLOEXEC, 0); err == nil {
+		closers = append(closers, func() { syscall.Close(fds[0]); syscall.Close(fds[1]) })
+		n += 2
+	}
+	return func() {
+		for _, c := range closers {
+			c()
+		}
+	}, n
+}
+
+// ---------------------------------------------------------------- Run
+
+const regTimeout = 5 * time.Second
+
 func Run(o *hx.Opts, w *lineio.Writer) error {
-	return errors.New("C18 harness not implemented")
+	var inputs []*dirIn
+	var ids []string
+	if o.Replay != "" {
+		cases, err := hx.ReplayCases(o.Replay)
+		if err != nil {
+			return err
+		}
+		for _, c := range cases {
+			in := &dirIn{}
+			if err := json.Unmarshal(c.In, in); err != nil {
+				return err
+			}
+			if in.Kind != "dir" {
+				return fmt.Errorf("unknown case kind %q", in.Kind)
+			}
+			inputs = append(inputs, in)
+			ids = append(ids, c.ID)
+		}
+	} else {
+		inputs = generate(o)
+		for i, in := range inputs {
+			ids = append(ids, fmt.Sprintf("%s-%d", in.Stream, i))
+		}
+	}
+	if len(inputs) == 0 {
+		return nil
+	}
+	root := os.Geteuid() == 0
+	for _, in := range inputs {
+		in.Root = root
+		in.RegTimeout = int(regTimeout / time.Millisecond)
+		for i := range in.Entries {
+			in.Entries[i].Behave = behaveOf(in.Entries[i].Name)
+		}
+	}
+	bin := filepath.Join(o.Scratch, "bin")
+	if err := os.MkdirAll(bin, 0o755); err != nil {
+		return err
+	}
+	ms := &masters{dir: bin, src: filepath.Join(bin, "probe"), by: map[string]string{}}
+	t0 := time.Now()
+	if err := buildProbe(ms.src, "./c18/probe"); err != nil {
+		return err
+	}
+	if err := buildProbe(filepath.Join(bin, "probe2"), "./c18/probe2"); err != nil {
+		return err
+	}
+	if err := ms.prepare(inputs); err != nil {
+		return err
+	}
+	tBuild := time.Since(t0)
+	release, held := holdDescriptors(bin)
+	defer release()
+	adaptation.SetPluginRegistrationTimeout(regTimeout)
+	adaptation.SetPluginRequestTimeout(30 * time.Second)
+
+	nw := 8
+	if len(inputs) < nw {
+		nw = len(inputs)
+	}
+	obs := make([]dirObs, len(inputs))
+	errs := make([]error, len(inputs))
+	var wg sync.WaitGroup
+	t1 := time.Now()
+	for k := 0; k < nw; k++ {
+		wg.Add(1)
+		go func(k int) {
+			defer wg.Done()
+			for i := k; i < len(inputs); i += nw {
+				base := filepath.Join(o.Scratch, fmt.Sprintf("d%d", i))
+				// a Start / request / Stop that never returns is an observation, not a harness failure
+				type res struct {
+					o   dirObs
+					err error
+				}
+				ch := make(chan res, 1)
+				go func() {
+					o, err := runCase(inputs[i], base, ms)
+					ch <- res{o, err}
+				}()
+				select {
+				case r := <-ch:
+					obs[i], errs[i] = r.o, r.err
+					os.RemoveAll(filepath.Join(base, "plugins"))
+				case <-time.After(4 * time.Minute):
+					obs[i] = dirObs{Start: "blocked", Log: []logLine{}, Noise: []string{}, Probes: []probeObs{}}
+				}
+			}
+		}(k)
+	}
+	wg.Wait()
+	for i, err := range errs {
+		if err != nil {
+			return fmt.Errorf("case %s: %w", ids[i], err)
+		}
+	}
+	el := time.Since(t1)
+	launched := 0
+	for i, in := range inputs {
+		launched += len(obs[i].Probes)
+		w.Put(&lineio.Case{ID: ids[i], In: in, Obs: obs[i]})
+	}
+	fmt.Fprintf(os.Stderr, "c18: probe built in %.1fs; %d directories, %d probe processes launched by Adaptation.Start, %d extra descriptors held by the runtime process, %d runtimes in parallel, %.1fs = %.1f directories/s\n",
+		tBuild.Seconds(), len(inputs), launched, held, nw, el.Seconds(), float64(len(inputs))/el.Seconds())
+	return nil
 }
